@@ -22,6 +22,8 @@ import (
 
 // C14 Background work never races with, blocks or corrupts later requests.
 
+const c14DirectedN = 3 * 3 * 5 * 2 * 2
+
 func c14Counts(tier string) (stress, replay, lin int64) {
 	stress, replay, lin = 500, 4000, 1000
 	if tier == "thorough" {
@@ -44,26 +46,30 @@ func init() {
 		ID:         "C14",
 		Race:       true,
 		Gomaxprocs: 4,
-		Rule:       "(1) free-running stress under the race detector: serial streams of 100-1200 notifications/requests (all request kinds, open/change/save/close/re-open, configuration changes with changing payloads) over 1-4 documents of an include workspace, the stub client recording and sharing nothing, seeded yields at the hook points; (2) crash/deadlock: child death, recovered panics, state-based deadlock; (3) sequential-replay equality: the same stream on a reference server drained after every message vs a monitored server whose background goroutines are parked at the gates (client boundary, diag.enter, diag.loaded, loader.read) across the following 0-2 messages; every response must be equal; (4) linearizability (porcupine) of workspace/loader under one writer and 3 concurrent readers with uniquely marked versions, free-running and with the reader held at loader.read across a complete write. Non-trivial = stream with >=1 change and >=1 request while background work was in flight / history with overlapping operations; distinct by stream or history hash.",
+		Rule:       "(1) free-running stress under the race detector: serial streams of 100-1200 notifications/requests (all request kinds, open/change/save/close/re-open, configuration changes with changing payloads) over 1-4 documents of an include workspace, the stub client recording and sharing nothing, seeded yields at the hook points; (2) crash/deadlock: child death, recovered panics, state-based deadlock; (3) sequential-replay equality: the same stream on a reference server drained after every message vs a monitored server whose background goroutines are parked at the gates (client boundary, diag.enter, diag.loaded, loader.read) across the following 0-2 messages; every response must be equal; (5) directed scenarios, all 180 combinations: the analysis of a document that includes another file is held at diag.enter / diag.loaded / loader.read while the included file is saved with new content, edited unsaved, or the include limits change, and a request (completion, references, hover, definition, rename) issued before or after the release must equal the answer of a drained reference server; (4) linearizability (porcupine) of workspace/loader under one writer and 3 concurrent readers with uniquely marked versions, free-running and with the reader held at loader.read across a complete write. Non-trivial = stream with >=1 change and >=1 request while background work was in flight / history with overlapping operations; distinct by stream or history hash.",
 		Notes:      []string{"monitor 1 sees only the interleavings the scheduler produced; monitors 3-4 are exhaustive only over the listed gate points", "configuration refreshes are not held across requests in monitor 3 (a request racing a settings change may legitimately see either)", "race reports with repository frames are violations; reports with harness frames only make the run inconclusive"},
 		Cases: func(tier string) int64 {
 			a, b, d := c14Counts(tier)
-			return a + b + d
+			return a + b + d + c14DirectedN
 		},
-		MustObserve: []string{"stress_messages", "replay_responses_compared", "replay_requests_with_parked_work", "lin_histories", "lin_ops"},
+		MustObserve: []string{"stress_messages", "replay_responses_compared", "replay_requests_with_parked_work", "lin_histories", "lin_ops", "directed_scenarios", "directed_analysis_held_across_event"},
 		RunCase:     runC14,
 	})
 }
 
 func runC14(c *Ctx, idx int64) {
-	a, b, _ := c14Counts(c.Tier)
+	a, b, d := c14Counts(c.Tier)
 	switch {
 	case idx < a:
 		c14Stress(c, idx)
 	case idx < a+b:
 		c14Replay(c, idx)
-	default:
+	case idx < a+b+d:
 		c14Lin(c, idx)
+	default:
+		if os.Getenv("VERIF_C14_ONLY") == "" || os.Getenv("VERIF_C14_ONLY") == "directed" {
+			c14Directed(c, idx, int(idx-a-b-d))
+		}
 	}
 }
 
@@ -613,5 +619,118 @@ func c14Lin(c *Ctx, idx int64) {
 			desc = append(desc, fmt.Sprintf("c%d [%d,%d] %s", o.ClientId, o.Call, o.Return, linModel.DescribeOperation(o.Input, o.Output)))
 		}
 		c.Sample(map[string]any{"case": idx, "monitor": "linearizability", "controlled": controlled, "history": desc, "verdict": string(res)})
+	}
+}
+
+// ---------------------------------------------------------------------------
+// (5) directed scenarios: an event that invalidates an include tree arrives while the analysis
+// that computes the tree is held
+
+func c14Directed(c *Ctx, idx int64, k int) {
+	gates := []string{"diag.enter", "diag.loaded", "loader.read"}
+	events := []string{"save-included", "limits-change", "save-included-unopened"}
+	reqs := []string{"completion", "references", "hover", "definition", "rename"}
+	gate := gates[k%3]
+	k /= 3
+	event := events[k%3]
+	k /= 3
+	req := reqs[k%5]
+	k /= 5
+	root := k%2 == 1
+	k /= 2
+	reqWhileHeld := k%2 == 1
+	mainText := "include a.journal\n\n2019-01-05 shop\n    expenses:food  5 USD\n    assets:cash\n"
+	aText := func(v int) string {
+		return fmt.Sprintf("account expenses:v%d\n\n2019-01-0%d shop\n    expenses:food  %d USD\n    expenses:v%d  1 USD\n    assets:cash\n", v, v+1, v+7, v)
+	}
+	run := func(tag string, gated bool) (string, bool) {
+		dir := filepath.Join(c.Dir, fmt.Sprintf("dir%d%s", idx, tag), "ws")
+		os.MkdirAll(dir, 0o755)
+		defer os.RemoveAll(filepath.Dir(dir))
+		os.WriteFile(filepath.Join(dir, "main.journal"), []byte(mainText), 0o644)
+		os.WriteFile(filepath.Join(dir, "a.journal"), []byte(aText(0)), 0o644)
+		var hg *HookGate
+		if gated {
+			hg = InstallHookGate(gate)
+			defer RemoveHookGate()
+		}
+		s := NewSession(dir, SessOpt{Root: root, SupportsConfig: true})
+		s.Drain()
+		um, ua := s.URI("main.journal"), s.URI("a.journal")
+		if b, _, done := s.Do(func() { s.Open(um, mainText) }); b {
+			<-done
+		}
+		if gated {
+			s.Quiesce()
+			if len(hg.Parked()) > 0 {
+				c.Count("directed_analysis_held_across_event", 1)
+			}
+		} else {
+			s.Drain()
+		}
+		switch event {
+		case "save-included":
+			s.Do(func() { s.Open(ua, aText(0)) })
+			if !gated {
+				s.Drain()
+			}
+			s.Do(func() { s.ChangeFull(ua, aText(1)) })
+			os.WriteFile(filepath.Join(dir, "a.journal"), []byte(aText(1)), 0o644)
+			s.Do(func() { s.Save(ua) })
+		case "save-included-unopened":
+			os.WriteFile(filepath.Join(dir, "a.journal"), []byte(aText(1)), 0o644)
+			s.Do(func() { s.Save(ua) })
+		case "limits-change":
+			s.Stub.SetConfigAnswers(map[string]any{"limits": map[string]any{"maxIncludeDepth": 1}})
+			s.Do(func() { s.Srv.DidChangeConfiguration(s.Ctx, nil) })
+			// the refresh itself is not held
+			deadline := time.Now().Add(30 * time.Second)
+			for s.Stub.ConfigCalls() == 0 && time.Now().Before(deadline) {
+				time.Sleep(100 * time.Microsecond)
+			}
+			s.Quiesce()
+		}
+		if !gated {
+			s.Drain()
+		}
+		ask := func() string {
+			tok := map[int]string{}
+			files := []wsFile{{Name: "main.journal", Variants: []string{mainText}}}
+			m := streamMsg{Kind: "req", Doc: 0, Req: req, Line: 3, Char: 10}
+			if req == "completion" {
+				m.Char = 13
+			}
+			var out string
+			s.Do(func() { out, _ = execMsg(s, files, m, tok) })
+			return out
+		}
+		var got string
+		if gated && reqWhileHeld {
+			got = ask()
+			hg.SetPoints()
+			hg.ReleaseAll()
+			s.Drain()
+		} else {
+			if gated {
+				hg.SetPoints()
+				hg.ReleaseAll()
+			}
+			s.Drain()
+			got = ask()
+		}
+		return got, true
+	}
+	UnorderedCompletion = true
+	want, _ := run("r", false)
+	got, _ := run("m", true)
+	c.Count("directed_scenarios", 1)
+	c.Nontrivial(HashStr(fmt.Sprintf("directed|%s|%s|%s|%v|%v", gate, event, req, root, reqWhileHeld)))
+	if got != want {
+		c.Violate(Violation{Kind: "stale-response", Sig: fmt.Sprintf("C14:directed-stale-response|%s|%s|root=%v", gate, event, root), Pool: "n/a",
+			Detail:  fmt.Sprintf("%s on main.journal (analysis held at %s while: %s; request %s the release) differs from a drained server: %s vs %s", req, gate, event, map[bool]string{true: "before", false: "after"}[reqWhileHeld], oneLine(got, 300), oneLine(want, 300)),
+			Witness: map[string]any{"gate": gate, "event": event, "request": req, "workspace_root": root, "request_while_held": reqWhileHeld}})
+	}
+	if k == 0 && idx%7 == 0 {
+		c.Sample(map[string]any{"case": idx, "monitor": "directed", "gate": gate, "event": event, "request": req, "workspace_root": root, "equal": got == want})
 	}
 }
